@@ -297,10 +297,23 @@ class Interp:
             return r.v
         return None
 
+    def origin_function(self):
+        """The builder function a construct is attributed to: the innermost function on the abstract call stack that the
+        reference tree knows (a helper introduced later is attributed to the function it was split from)."""
+        from ..normal import reference
+        known = {q.rsplit(".", 1)[1] for q in reference().get("inventory", {}).get("transform", [])}
+        for name in reversed(self.callstack):
+            if not known or name in known:
+                return name
+        return self.callstack[-1] if self.callstack else "?"
+
     def method(self, name, selfv):
         if name not in self.methods:
             return None
-        return Closure(self.methods[name], {}, selfv, name)
+        fn = self.methods[name]
+        if any(isinstance(d, ast.Name) and d.id == "staticmethod" for d in getattr(fn, "decorator_list", [])):
+            return Closure(fn, {}, None, name)        # a static method receives no receiver
+        return Closure(fn, {}, selfv, name)
 
     # ============================================================================ statements
     def block(self, stmts, env):
@@ -938,7 +951,7 @@ class Interp:
                 return self.new_list(list(v)) if name != "tuple" else tuple(v)
             raise Unsupported(f"{name} of {v!r}")
         if name == "deepcopy":
-            return Copy(args[0], self.callstack[-1] if self.callstack else "?")
+            return Copy(args[0], self.origin_function())
         if name == "str":
             return args[0] if isinstance(args[0], (str, SymStr, Ident)) else Opaque("str(...)")
         if name in ("any", "set", "id"):
